@@ -317,5 +317,11 @@ func parseInstances(buf []byte) ([]*input.Instance, error) {
 	if err := yaml.Unmarshal(buf, &r); err != nil {
 		return nil, err
 	}
+	for i, x := range r {
+		if x == nil {
+			// an empty list item ("- " or null) is read as a nil instance
+			return nil, errorx.Invalid("instances[%d] is empty", i)
+		}
+	}
 	return r, nil
 }
